@@ -74,6 +74,9 @@ def run(chk):
 
     names = QUICK if chk.quick else THOROUGH
     results = {}
+    # decoration time: what @step makes of a function signature (StepSig.tla)
+    from harness.checks import _stepsig
+    _stepsig.run(chk)
 
     def mc(name):
         results[name] = tlc.run(SPECS / "config/MC_Validate.tla", SPECS / ("config/MC_Validate_%s.cfg" % name),
